@@ -163,7 +163,8 @@ pub fn body_one(kind: u8, witness: bool) {
     // decimal rendering of the line number (reference: repeated division, most significant digit first)
     let mut dec = [0u8; 10];
     let mut dl = 0;
-    {
+    if kind == 4 {
+        // (only the line formatter's instance runs these loops: the others keep the harness bound of 8)
         let mut tmp = [0u8; 10];
         let mut n = line_v;
         let mut k = 0;
